@@ -18,7 +18,8 @@ PARTIAL = "exact ordered field for 'denominator is not 0' (IEEE overflow/NaN out
 def oracle(ctx):
     quick = ctx["tier"] == "quick"
     n = (26 * len(ot.FAMILIES) * (40 if quick else 160)) * ctx["boost"]
-    return cm.run_cases(ot.case, ctx["seed"], ID, n, {"size": 60 if quick else 250})
+    return cm.merge_results(cm.run_cases(ot.case, ctx["seed"], ID, n, {"size": 60 if quick else 250}),
+                            cm.run_cases(ot.case, ctx["seed"], ID + "vl", 10 if quick else 60, {"size": 60, "families": ["walk-verylongflat"]}))
 
 
 replay = ot.replay
